@@ -5,6 +5,7 @@ import Holpy.C18.ProofsSimp
 import Holpy.C18.ProofsSimpB
 import Holpy.C18.ProofsSimp2
 import Holpy.C18.ProofsCong
+import Holpy.C18.ProofsPred
 namespace Holpy.C18
 open Tm
 
@@ -18,6 +19,7 @@ theorem evalRule_sound' (I : Interp) (hI : I.LeOrder) (r : Rule) (cl : List Tm) 
   case connectiveDef => exact connectiveDef_sound I _ _ h (by simp only [wellKinded] at hk ⊢; exact hk)
   case subproof => exact subproof_sound I _ _ _ h hp
   case congRule => exact congRule_sound I _ _ _ h hk hp
+  case eqCongruentPred => exact eqCongruentPred_sound I _ _ h (by simp only [wellKinded] at hk ⊢; exact hk)
   case notSimplify => exact notSimplify_sound I _ _ h (by simpa [wellKinded] using hk)
   case andSimplify => exact andSimplify_sound I _ _ h (by simpa [wellKinded] using hk)
   case orSimplify => exact orSimplify_sound I _ _ h (by simpa [wellKinded] using hk)
@@ -102,6 +104,7 @@ theorem evalRule_hyps' (r : Rule) (cl : List Tm) (sizes : List Nat) (ps : List S
   case congRule => exact congRule_hyps _ _ _ h
   all_goals (intro x hx; exfalso)
   case eqReflexive => simp [eqReflexive_hyps _ _ h] at hx
+  case eqCongruentPred => simp [eqCongruentPred_hyps _ _ h] at hx
   case iteSimplify => simp [iteSimplify_hyps _ _ h] at hx
   case connectiveDef => simp [connectiveDef_hyps _ _ h] at hx
   case notSimplify => simp [notSimplify_hyps _ _ h] at hx
